@@ -18,6 +18,28 @@ P = c01.P
 def prepare(runner, work):
     c01.prepare(runner, work)
 
+def string_family(rng, count, tail):
+    """datasets whose character columns are prefixes / extensions of one another, blank, or missing"""
+    out = []
+    words = [b"", b"A", b"AB", b"AB ", b"ABC", b"LINZ", b"LINZ HOERSCHING", b"LINZ HOERSCHINH", b"  ", b" LINZ", b"linz", b"LINZ\xff", None]
+    for i in range(count):
+        cc = rng.choice([1015, 1019, 1011, 1063])
+        t = [cc, 12101] if rng.random() < 0.7 else [208000 + rng.choice([3, 5, 16]), cc, 208000, 12101]
+        ix = t.index(cc)
+        nsub = rng.choice([2, 3, 4])
+        ls = ["T.use cur", "tm.new 4 " + " ".join("%06d" % d for d in t)]
+        for k in range(nsub):
+            ls += ["ss.new", "ss.fill %d %d 1" % (k, 5 + k)]
+            w = rng.choice(words)
+            if w is not None:
+                ls.append("ss.setstr %d %d %s" % (k, ix, w.hex() or "-"))
+        for k in range(nsub):
+            ls += ["ss.list %d" % k, "ss.vals %d" % k]
+        ls += tail(nsub)
+        out.append(Scenario("strs-%d" % i, ls, {"tables": "cur", "ed": 4, "template": t, "nsub": nsub, "comp": 1,
+                                                 "seeds": [(5 + k, 1) for k in range(nsub)]}))
+    return out
+
 def scenarios(rng, tier, runner):
     out = []
     n = 700 if tier == "quick" else 10000
@@ -38,6 +60,30 @@ def scenarios(rng, tier, runner):
         for k in range(meta["nsub"]):
             ls += ["dd.vals %d" % k]
         out.append(Scenario("cmp-%d" % i, ls, meta))
+    # a dataset that carries the COMPRESSED flag (decoded from a compressed message) and is then changed so that
+    # it is no longer compressible: the encoder must still fall back
+    for i in range(60 if tier == "quick" else 800):
+        name = rng.choice(["cur", "loc", "syn"])
+        B, D = P[name]
+        nsub = rng.choice([2, 3])
+        while True:
+            ls, meta = datasets.build_lines(rng, name, B, D, nsub=nsub, same_structure=True, depth=rng.choice([1, 2, 2, 3]))
+            if not any(d // 1000 == 203 for d in meta["template"]):
+                break       # new reference values need the settle-and-refill protocol of the generator
+        ls += ["ds.invalid", "ds.encode 1", "ds.decodelast 1 0 0", "dd.tocur", "ss.new",
+               "ss.setfactors %d %s" % (nsub, rng.choice(datasets.FACTOR_SETS)), "ss.expand %d" % nsub,
+               "ss.setfactors %d %s" % (nsub, rng.choice(datasets.FACTOR_SETS)), "ss.expand %d" % nsub,
+               "ss.fill %d %d %d" % (nsub, rng.randrange(1, 2 ** 31), rng.choice([0, 1, 1, 4]))]
+        for k in range(nsub + 1):
+            ls += ["ss.list %d" % k, "ss.vals %d" % k]
+        ls += ["ds.invalid", "ds.encode %d" % rng.choice([1, 1, -1]), "ds.decodelast 1 0 0"]
+        for k in range(nsub + 1):
+            ls += ["dd.list %d" % k, "dd.vals %d" % k]
+        meta = dict(meta); meta["nsub"] = nsub + 1; meta["family"] = "flagged"
+        out.append(Scenario("flagged-%d" % i, ls, meta))
+    out += string_family(rng, 40 if tier == "quick" else 600,
+                         lambda nsub: ["ds.invalid", "ds.encode 1", "ds.decodelast 1 0 0"] +
+                                      [x for k in range(nsub) for x in ("dd.list %d" % k, "dd.vals %d" % k)])
     # equal total length, different structure: two delayed groups with counts (1,2) and (2,1)
     for i in range(20 if tier == "quick" else 200):
         B, D = P["cur"]
@@ -69,29 +115,37 @@ def oracle(scn, outs):
     for o in outs:
         if o in ("exit", "abort"):
             return "the encoder/decoder terminated the process (%s)" % o
-    built_l = datasets.subset_views(scn, outs, "ss.list")
-    built_v = datasets.subset_views(scn, outs, "ss.vals")
-    if not built_l or any(o in ("none", "-") for o in built_l.values()):
-        return None
-    inv = next((o for l, o in zip(scn.lines, outs) if l == "ds.invalid"), "0")
-    if inv != "0":
-        return None
+    inv = "0"
     pending = set()
-    for l in scn.lines:
-        t = l.split()
-        if t[0] == "ss.setfactors": pending.add(t[1])
-        elif t[0] == "ss.expand": pending.discard(t[1])
-        elif t[0] == "ds.encode" and pending: return None
-    # walk: each ds.encode c / ds.decodelast / dd.* group
-    cur_enc, cur_dec, cur_l = None, None, {}
+    # walk the scenario: the dataset as listed before each ds.encode is what that message must decode to
+    live_l, live_v = {}, {}
+    built_l, built_v = None, None
+    cur_enc, cur_dec = None, None
     for l, o in zip(scn.lines, outs):
         t = l.split()
-        if t[0] == "ds.encode":
+        if t[0] == "ss.list" and len(t) == 2: live_l[int(t[1])] = o
+        elif t[0] == "ss.vals" and len(t) == 2: live_v[int(t[1])] = o
+        elif t[0] in ("ss.fill", "ss.setraw", "ss.setstr", "ss.expand") and len(t) > 1 and t[1].isdigit():
+            live_l.pop(int(t[1]), None); live_v.pop(int(t[1]), None)      # listing out of date
+            if t[0] == "ss.expand": pending.discard(t[1])
+        elif t[0] == "ss.setfactors": pending.add(t[1])
+        elif t[0] in ("dd.tocur", "tm.new"):
+            live_l, live_v = {}, {}
+        elif l == "ds.invalid":
+            inv = o
+        elif t[0] == "ds.encode":
             cur_enc = (int(t[1]), o.split())
+            built_l, built_v = dict(live_l), dict(live_v)
+            usable = (inv == "0" and not pending and len(cur_enc[1]) == 3 and built_l and
+                      set(built_l) == set(range(int(cur_enc[1][1]))) and set(built_v) == set(built_l) and
+                      not any(v in ("none", "-") for v in built_l.values()))
+            if not usable:
+                built_l = None
         elif t[0] == "ds.decodelast":
             cur_dec = o.split()
-            if cur_enc is None or len(cur_enc[1]) != 3:
-                return None
+            if built_l is None or cur_enc is None:
+                cur_dec = None
+                continue
             if cur_dec[0] != "ok":
                 return "decoding the library's own message (compress=%d) failed: %s" % (cur_enc[0], o)
             if cur_dec[1] != "0":
@@ -100,14 +154,14 @@ def oracle(scn, outs):
                 return "compress=%d: decoded %s subsets, encoded %d" % (cur_enc[0], cur_dec[2], len(built_l))
             same_structure = len(set(len(parse_nodes(v)) for v in built_l.values())) == 1
             flag_c = bool(int(cur_enc[1][0]) & 64)
-            if cur_enc[0] == 1 and flag_c and not same_structure:
+            if flag_c and not same_structure:
                 return "subsets of different structure were written in compressed form"
-        elif t[0] == "dd.list" and cur_dec and cur_dec[0] == "ok":
+        elif t[0] == "dd.list" and cur_dec and cur_dec[0] == "ok" and built_l:
             k = int(t[1])
             a, b = parse_nodes(built_l.get(k, "-")), parse_nodes(o)
             if [(n["desc"], bool(n["flags"] & 4)) for n in a] != [(n["desc"], bool(n["flags"] & 4)) for n in b]:
                 return "compress=%d subset %d: decoded descriptor sequence differs from the encoded one" % (cur_enc[0], k)
-        elif t[0] == "dd.vals" and cur_dec and cur_dec[0] == "ok":
+        elif t[0] == "dd.vals" and cur_dec and cur_dec[0] == "ok" and built_l:
             k = int(t[1])
             a = parse_nodes(built_l.get(k, "-"))
             va, vb = built_v.get(k, "").split(), o.split()
